@@ -23,8 +23,8 @@ type replayRec struct {
 	Part       string `json:"part"` // serix | stream | ds
 	Static     bool   `json:"static,omitempty"`
 	USeed      int64  `json:"universe_seed,omitempty"`
-	ShapeIdx   int    `json:"shape_idx,omitempty"`
-	ValIdx     int    `json:"val_idx,omitempty"`
+	ShapeIdx   int    `json:"shape_idx"`
+	ValIdx     int    `json:"val_idx"`
 	Validation bool   `json:"validation,omitempty"`
 	// stream
 	Pair    string `json:"pair,omitempty"`
@@ -80,15 +80,25 @@ func run(c *vf.Ctx) {
 	runStream(c, a, workers)
 	runDS(c, a)
 	c.SetExhaustive(false)
-	c.Require("evaluations", int64Pick(c, 20000, 400000))
-	c.Require("roundtrips_binary", int64Pick(c, 10000, 200000))
-	c.Require("roundtrips_json", int64Pick(c, 1000, 20000))
-	c.Require("stream_readbacks", int64Pick(c, 5000, 100000))
-	c.Require("determinism_reencodings_with_maps", int64Pick(c, 2000, 40000))
+	if n := c.Get("json_bytes_vary_with_map_order_observation"); n > 0 {
+		c.Note(fmt.Sprintf("observation only (the determinism clause is anchored in the binary encoder): JSONEncode/MapEncode of the same value gave different bytes after rebuilding its maps in %d cases - mapEncodeMap keeps Go's map iteration order in its insertion-ordered result", n))
+	}
+	if n := c.Get("values_with_documented_time_saturation"); n > 0 {
+		c.Note(fmt.Sprintf("%d accepted values held a time.Time outside [epoch, MaxInt64 ns]; they are compared through the documented uint64-nanosecond stamp (clamp to 0 / saturation), i.e. the oracle demands less than literal equality there", n))
+	}
+	c.Require("evaluations", c.Pick(90000, 1800000))
+	c.Require("roundtrips_binary", c.Pick(40000, 800000))
+	c.Require("roundtrips_json", c.Pick(30000, 600000))
+	c.Require("stream_readbacks", c.Pick(20000, 400000))
+	c.Require("ds_roundtrips", c.Pick(800, 16000))
+	c.Require("determinism_reencodings_with_maps", c.Pick(50000, 1000000))
+	c.Require("dirty_destination_decodes", c.Pick(30000, 600000))
+	c.Require("nontrivial", c.Pick(500, 8000))
+	c.Require("feature_pairs", 90)
+	c.Require("stream_cases", 300)
 	c.Assume("reflect, encoding/json and math/big of the Go toolchain are correct; the harness's own Build/Extract (value tree <-> Go value) is validated by the fact that the fresh-destination comparison is silent on the vast majority of shapes")
 }
 
-func int64Pick(c *vf.Ctx, q, t int) int { return c.Pick(q, t) }
 
 func replay(c *vf.Ctx) {
 	var r replayRec
@@ -107,6 +117,10 @@ func replay(c *vf.Ctx) {
 			u = sergen.NewDynamic(r.USeed)
 		}
 		s := u.Shapes[r.ShapeIdx]
+		if r.ValIdx < 0 { // the whole shape (recorded when a child process died)
+			exercise(st, u, r.ShapeIdx, s, 40)
+			break
+		}
 		vals := sergen.Values(s, valRng(r.USeed, r.ShapeIdx), r.ValIdx+1)
 		runCase(st, u, r.ShapeIdx, s, vals[r.ValIdx], r.ValIdx, r.Validation, true)
 	case "stream":
@@ -121,4 +135,11 @@ func valRng(useed int64, shapeIdx int) *rand.Rand {
 	return rand.New(rand.NewSource(useed*1000003 + int64(shapeIdx)*7919 + 17))
 }
 
-func main() { vf.Main("C01", "exploration", run, nil) }
+func child(c *vf.Ctx) {
+	switch c.Child {
+	case "serix":
+		serixChild(c)
+	}
+}
+
+func main() { vf.Main("C01", "exploration", run, child) }
